@@ -11,6 +11,7 @@
 //     becomes the entry of ClusterBase's gateway table.  An `np <id> <torus> r` line adds a router to the torus after the
 //     last leaf (so that netpoint ids stay equal to leaf positions).  The links the torus creates get ids from 100000
 //     (sorted by name).
+//   zone <id> <parent> fattree <down,..;up,..;count,..> <latency %a> [x y h] : a FatTreeZone, same conventions.
 //   route <zone> <src|-> <dst|-> <gwsrc|-> <gwdst|-> <sym> <links..> ; bypass <zone> <src> <dst> <gwsrc|-> <gwdst|-> <links..>
 // Names: zone "z<id>" (its netpoint has the same name), host/router "n<id>", link "l<id>"; the loopback link is link 0.
 // A case runs in a forked child (one Engine per process); when the library aborts on a query the parent prints
@@ -106,9 +107,24 @@ static sg4::NetZone* make_zone(sg4::NetZone* parent, const std::vector<std::stri
     while (std::getline(in, d, ','))
       dims.push_back(std::stoul(d));
     z = parent->add_netzone_torus(name, dims, 1e9, std::strtod(t.at(5).c_str(), nullptr), sg4::Link::SharingPolicy::SHARED);
+  } else if (t[3] == "fattree") {
+    // <down_1,..,down_n;up_1,..,up_n;count_1,..,count_n>
+    std::vector<std::vector<unsigned int>> p;
+    std::istringstream in(t.at(4));
+    std::string part;
+    while (std::getline(in, part, ';')) {
+      std::vector<unsigned int> v;
+      std::istringstream pin(part);
+      std::string d;
+      while (std::getline(pin, d, ','))
+        v.push_back(static_cast<unsigned int>(std::stoul(d)));
+      p.push_back(v);
+    }
+    z = parent->add_netzone_fatTree(name, static_cast<unsigned int>(p.at(0).size()), p.at(0), p.at(1), p.at(2), 1e9,
+                                    std::strtod(t.at(5).c_str(), nullptr), sg4::Link::SharingPolicy::SHARED);
   } else
     throw std::invalid_argument("zone kind " + t[3]);
-  size_t c0 = t[3] == "torus" ? 6 : 4; // Vivaldi coordinates of the zone's netpoint
+  size_t c0 = (t[3] == "torus" || t[3] == "fattree") ? 6 : 4; // Vivaldi coordinates of the zone's netpoint
   if (t.size() >= c0 + 3)
     z->get_netpoint()->set_coordinates(t[c0] + " " + t[c0 + 1] + " " + t[c0 + 2]);
   return z;
@@ -167,7 +183,7 @@ static void build(World& w, const std::vector<std::string>& lines)
       kind[id]      = t[3];
       parent_of[id] = std::stoi(t[2]);
     }
-  auto is_torus    = [&](int z) { return kind.count(z) && kind[z] == "torus"; };
+  auto is_torus    = [&](int z) { return kind.count(z) && (kind[z] == "torus" || kind[z] == "fattree"); };
   auto is_leaf     = [&](int z) { return parent_of.count(z) && is_torus(parent_of[z]); };
   auto is_deferred = [&](int z) { return is_torus(z) || is_leaf(z); };
   for (auto const& t : toks) {
